@@ -58,6 +58,7 @@ type Gen struct {
 	big     bool // use amounts up to 10^30
 	queue   []Event
 	early   bool // still at the start of the block (x/distribution allocates only in its begin-blocker)
+	clean   bool // steer away from the root causes of known findings: no slashes, no take rate, small amounts
 }
 
 func pick[T any](r *rand.Rand, xs []T) T { return xs[r.Intn(len(xs))] }
@@ -231,6 +232,10 @@ func (g *Gen) next() Event {
 	case "rewards":
 		accrueW, slashW, govW = 14, 1, 2
 		opts[4].w = 16 // claims
+		if g.clean {
+			slashW = 0
+			opts[4].w = 24
+		}
 	case "power":
 		nativeW, realSlashW, slashW, accrueW, govW = 10, 5, 0, 3, 3
 	case "gov":
@@ -331,7 +336,7 @@ func (g *Gen) govEvent() Event {
 }
 
 // DefaultCfg draws a world configuration for a family.
-func DefaultCfg(r *rand.Rand, family string, big bool) WorldCfg {
+func DefaultCfg(r *rand.Rand, family string, big bool, clean bool) WorldCfg {
 	cfg := WorldCfg{NVal: 3, NDel: 3, Delay: 0, Interval: pick(r, []int64{2, 3, 5}), LastClaim: -1, Unbonding: pick(r, []int64{1, 2, 5, 7}),
 		SelfStake: "5000000", UserFunds: "1000000000", Commission: "0"}
 	if big {
@@ -344,6 +349,9 @@ func DefaultCfg(r *rand.Rand, family string, big bool) WorldCfg {
 	}
 	if family == "rewards" {
 		takes = []string{"0", "0", "0", "0", "0.1"} // take-rate deductions change token values under accrued rewards (C13 excludes those)
+		if clean {
+			takes = []string{"0"}
+		}
 	}
 	for i, d := range []string{"ast0", "ast1"} {
 		w := pick(r, weights)
